@@ -460,7 +460,9 @@ ApplyLeaf(st, s) ==
 \* ------------------------------------------------------------------ in-place updates
 \* The view family of root r: r and every registered (live) view descendant.
 RECURSIVE Family(_, _)
-Family(st, h) == {h} \cup UNION {Family(st, k) : k \in {x \in st.H[h].kids : st.H[x].live}}
+\* (a view the user has dropped stays registered as long as the object lives on - e.g. as the parent of another view -
+\*  so membership does not depend on `live`; a dropped view nobody refers to is unobservable either way)
+Family(st, h) == {h} \cup UNION {Family(st, k) : k \in st.H[h].kids}
 
 \* every member of `todo` (view tensors) is re-created from its (already re-created) parent: it gets a new graph node
 \* whose only parent is its parent's current node; parents first
